@@ -91,6 +91,9 @@ async def drive(ctx: Any, d: vecu.Driver, requests: Any, tag: str, cfg: dict[str
             continue
         hist.append(q)
         raw = d.is_raw(q)
+        if raw and iso.request_wellformed(q):
+            ctx.violation(f"parse/wellformed-request-treated-as-unparsable/sid-{q[0]:02x}" + (f".{q[1] & 0x7F:02x}" if q[0] in (0x19, 0x2C, 0x31) and len(q) > 1 else "") + ("/suppress-bit" if iso.suppress_requested(q) else ""),
+                          "a request that is well-formed by ISO 14229-1 is not parsed by the ECU, so the 'unparsable request' rule would answer it", {**cfg, "request": q})
         before = (m.S, m.sec)
         try:
             reply, _ = await d.transport.handle_request(q)
@@ -140,7 +143,20 @@ def history(ctx: Any, d: vecu.Driver, n: int, restrict_dsc: bool) -> Any:
     m = d.model
     assert m is not None
     last_seed: tuple[int, bytes] | None = None
+    remembered: tuple[int, bytes] | None = None  # the last seed the tester saw, even if the ECU has forgotten it meanwhile
     for _ in range(n):
+        if last_seed is not None:
+            remembered = last_seed
+            if rng.random() < 0.2:
+                # something in between: tester present keeps the seed valid iff it is answered positively
+                yield rng.choice([b"\x3e\x00", b"\x3e\x00", b"\x3e\x80", b"\x3e\x00\x00"])
+                last_seed = (m.last_sa[0], m.last_sa[1]) if m.last_sa is not None and m.last_sa[1] is not vecu.UNKNOWN else None
+        if last_seed is None and remembered is not None and rng.random() < 0.3:
+            # a key for a seed the ECU may no longer remember
+            yield bytes([0x27, remembered[0] + 1]) + remembered[1]
+            remembered = None
+            last_seed = (m.last_sa[0], m.last_sa[1]) if m.last_sa is not None and m.last_sa[1] is not vecu.UNKNOWN else None
+            continue
         if rng.random() < 0.01:
             yield ("PAUSE", rng.choice([3.0, 30.0, 600.0]))
             last_seed = None if m.last_sa is None else last_seed
